@@ -104,9 +104,10 @@ func kindSuffix(k string) string { return k }
 
 // c18Op is one step of an operation sequence.
 type c18Op struct {
-	Op   string `json:"op"` // Append Prepend Insert Set Remove Swap ElemSet Sort | FSet FClear
-	I, J int    `json:"i,j"`
-	Val  kval   `json:"val"`
+	Op  string `json:"op"` // Append Prepend Insert Set Remove Swap ElemSet Sort | FSet FClear
+	I   int    `json:"i"`
+	J   int    `json:"j"`
+	Val kval   `json:"val"`
 	// Generic selects the kind-agnostic entry point for the value: the
 	// <op>Type(vocab.Type) error methods for a type value, SetLanguage for a
 	// language map on an element.
